@@ -126,6 +126,7 @@ def run(ck: Check, prog: Program) -> None:
               not flagged, sample={'sites': n, 'flagged': [norm(s.expr) for s, _, _ in flagged]})
     ck.require('SENT-TRUTH', 'conditions examined in the message model', n_sites, 20)
 
+    _presence_by_identity(ck, prog)
     _atomic_append(ck, prog, interp)
     _empty_batch_request(ck, prog)
     ck.extra['contexts_analysed'] = interp.contexts
@@ -133,6 +134,39 @@ def run(ck: Check, prog: Program) -> None:
     ck.extra['assumed_total_callees'] = {k: len(v) for k, v in sorted(interp.assumed_total.items())}
     if interp.depth_cutoffs:
         raise AnalysisError(f'call depth bound hit at {sorted(interp.depth_cutoffs)}')
+
+
+def _presence_by_identity(ck: Check, prog: Program) -> None:
+    """XOR: presence of result / error (and error data) is decided by identity against UNSET with UNSET as the reader default, so that
+    a member that is present but null is not mistaken for an absent one."""
+    from ..util import is_unset_expr
+    for q, keys in ((V20 + '.Response.from_json', ('result', 'error')), (EXC + '.JsonRpcError.from_json', ('data',))):
+        f = prog.func(q)
+        cfg = CFG(f, prog)
+        jp = json_param(f)
+        reads = [r for r in key_reads(cfg) if r.var == jp]
+        for k in keys:
+            rs = [r for r in reads if r.key == k]
+            ok = bool(rs) and all(r.how == 'get' and r.default is not None and is_unset_expr(prog, f, r.default) for r in rs
+                                  if not isinstance(r.node.ast, ast.Raise))
+            ck.ob('XOR', f'{short(q)}: member {k!r} is read with UNSET as the absent marker', ok)
+            if not ok:
+                bad = [r for r in rs if not (r.how == 'get' and r.default is not None and is_unset_expr(prog, f, r.default))]
+                ck.finding('XOR', q, f'member {k!r} absent marker is not UNSET', f.module.rel, bad[0].node.line if bad else f.node.lineno,
+                           f'member {k!r} is read as `{norm(bad[0].expr) if bad else "?"}`: a member that is present with the value null becomes '
+                           f'indistinguishable from an absent one, so e.g. a response carrying a result together with "error": null is accepted')
+        members = _member_vars(cfg, f)
+        for k in keys:
+            if k not in members:
+                continue
+            var = members[k][0]
+            for c in cfg.nodes:
+                if c.kind == 'cond':
+                    ckd = classify_cond(prog, f, c.ast)
+                    if ckd.subject == var and ckd.kind in ('is-none', 'truthy'):
+                        ck.finding('XOR', q, f'presence of {k!r} tested by {ckd.kind}', f.module.rel, c.line,
+                                   f'`{norm(c.ast)}` decides the presence of member {k!r} by a None/truthiness test; presence must be an identity '
+                                   f'test against UNSET')
 
 
 def _member_vars(cfg: CFG, f: FuncInfo) -> Dict[str, Tuple[str, Node]]:
@@ -147,6 +181,9 @@ def _member_vars(cfg: CFG, f: FuncInfo) -> Dict[str, Tuple[str, Node]]:
             tg = a.targets[0]
             if isinstance(tg, ast.Name) and a.value is r.expr:
                 out.setdefault(r.key, (tg.id, r.node))
+            elif isinstance(tg, ast.Name) and isinstance(a.value, (ast.BoolOp, ast.IfExp)) and any(x is r.expr for x in ast.walk(a.value)):
+                out.setdefault(r.key, (tg.id, r.node))
+                r.node.extra['member_rewritten'] = norm(a.value)
             elif isinstance(tg, ast.Tuple) and isinstance(a.value, ast.Tuple):
                 for t_, v_ in zip(tg.elts, a.value.elts):
                     if v_ is r.expr and isinstance(t_, ast.Name):
@@ -185,6 +222,10 @@ def _field_guards(ck: Check, prog: Program, f: FuncInfo) -> None:
         if key not in members:
             raise AnalysisError(f'{f.qualname}: member {key!r} is not read into a local variable (unknown idiom)')
         var, defnode = members[key]
+        if defnode.extra.get('member_rewritten'):
+            ck.finding('FIELD-GUARD', f.qualname, f'member {key!r} replaced before its type check', f.module.rel, defnode.line,
+                       f'`{norm(defnode.ast)}`: the member is replaced by a default whenever it is falsy, so a present-but-invalid value '
+                       f'(null, 0, "", false) bypasses the type check that follows and a structurally invalid message is accepted')
         guards = []
         bool_excluded = False
         for c, e in redges:
@@ -267,6 +308,40 @@ def _container_guard(ck: Check, prog: Program, f: FuncInfo) -> None:
                        f'isinstance check: a JSON value of another type raises TypeError/AttributeError instead of DeserializationError')
 
 
+
+def dup_check_problems(prog: Program, f: FuncInfo) -> List[Tuple[int, str]]:
+    """_add_ids: an id is skipped only when it `is None`; an id already present raises IdentityError."""
+    cfg = CFG(f, prog)
+    out: List[Tuple[int, str]] = []
+    heads = [n for n in cfg.nodes if n.kind == 'next']
+    if len(heads) != 1:
+        raise AnalysisError(f'{f.qualname}: id loop not recognised')
+    idv = dotted(heads[0].ast.target)
+    skips = [n for n in cfg.stmt_nodes() if isinstance(n.ast, ast.Continue)]
+    for n in skips:
+        for g in guard_edges(cfg, n):
+            ckd = classify_cond(prog, f, g.src.ast)
+            if ckd.subject == idv and ckd.kind == 'is-none' and (g.label == 'T') != ckd.negated:
+                continue
+            if ckd.subject == idv:
+                out.append((n.line, f'ids are skipped from the duplicate check under `{norm(g.src.ast)}` ({g.label}): only a None id (notification) '
+                            f'may be skipped — the ids 0 and "" are legitimate and must be checked for duplicates'))
+    raises = [n for n in cfg.stmt_nodes() if isinstance(n.ast, ast.Raise) and 'IdentityError' in norm(n.ast)]
+    ok = False
+    for n in raises:
+        for g in guard_edges(cfg, n):
+            e = g.src.ast
+            if isinstance(e, ast.Compare) and isinstance(e.ops[0], ast.In) and dotted(e.left) == idv and g.label == 'T':
+                ok = True
+    if not ok:
+        out.append((f.node.lineno, 'an id already present does not raise IdentityError'))
+    # every non-None id is recorded
+    adds = [n for n in cfg.stmt_nodes() for c in calls_in(n) if isinstance(c.func, ast.Attribute) and c.func.attr == 'add' and c.args and dotted(c.args[0]) == idv]
+    if not adds:
+        out.append((f.node.lineno, 'checked ids are not recorded for later duplicate checks'))
+    return out
+
+
 MUTATORS = {'add', 'append', 'extend', 'update', 'insert', 'remove', 'discard', 'pop', 'clear', 'setdefault', 'sort',
             'reverse', 'popitem', '__setitem__', 'appendleft'}
 
@@ -327,6 +402,11 @@ def _atomic_append(ck: Check, prog: Program, interp: Interp) -> None:
                 ck.finding('ATOMIC-APPEND', f.qualname, f'{what} before possible IdentityError', f.module.rel, w.line,
                            f'`{what}` (line {w.line}) can be followed by IdentityError (line {r.line}): adding a duplicate id '
                            f'raises but leaves the batch modified')
+            if mname == '_add_ids':
+                dp = dup_check_problems(prog, f)
+                ck.ob('DUP-CHECK', f'{short(f.qualname)}: only None ids are exempt from the duplicate check; a duplicate raises', not dp)
+                for line, msg in dp:
+                    ck.finding('DUP-CHECK', f.qualname, msg[:70], f.module.rel, line, msg)
             if mname in ('append', 'extend') and not raising:
                 ck.finding('ATOMIC-APPEND', f.qualname, 'no duplicate-id check', f.module.rel, f.node.lineno,
                            f'{short(f.qualname)} can no longer raise IdentityError: duplicate ids are accepted')
